@@ -407,3 +407,46 @@ def run_no_remove(run, P):
                           '%s() is applied to %s, the destination of the rename() in this function: from here until the rename the file does not exist, a crash in between '
                           'loses the old and the new state' % (t['fn'], short(strip(t['a'][0]))[:50]), [])
     run.require(n >= (5 if run.cfg == 'base' else 0) or run.fixture_mode, 'R-PERSIST(one atomic step): fewer than 5 functions that rename() found')
+
+
+def run_raw_packet(run, P):
+    """R-PERSIST (raw packet): what is persisted for a dynamic resource or an observation is the request as it was on the wire: a byte
+    string that starts `hdr_size` bytes in front of the PDU's token (`R.s = X->token - H`) and is therefore `used_size + H` bytes long.
+    Sibling agreement over every place that builds such a string: where the pointer is a token pointer minus a header size H, the length
+    assigned to the same record mentions used_size AND the same H.  A length that forgets the header drops the last bytes of the stored
+    request: the loader cannot parse it after the restart (or parses a shortened payload) and the resource is not re-created."""
+    from core.prog import strip, walk, ap, short
+    run.rule('R-PERSIST')
+    n = 0
+    for f in sorted(P.lib_funcs(), key=lambda f: f['name']):
+        ptr = {}     # record base -> (header-size access path, loc)
+        ln = {}      # record base -> (expression, loc)
+        for b, ev in P.events(f):
+            t = ev['e']
+            if t.get('k') != 'asg' or t.get('op') != '=':
+                continue
+            l = strip(t['l'])
+            if not (isinstance(l, dict) and l.get('k') == 'mem' and l.get('rec') in ('coap_bin_const_t', 'coap_binary_t') and ap(l.get('b'))):
+                continue
+            r = strip(t['r'])
+            if l['f'] == 's' and isinstance(r, dict) and r.get('k') == 'bin' and r.get('op') == '-':
+                lt, rt = strip(r['l']), strip(r['r'])
+                if isinstance(lt, dict) and lt.get('k') == 'mem' and lt.get('f') == 'token' and isinstance(rt, dict) and rt.get('k') == 'mem' and rt.get('f') == 'hdr_size' and ap(rt):
+                    ptr[ap(l['b'])] = (ap(rt), ev['loc'])
+            if l['f'] == 'length':
+                ln[ap(l['b'])] = (t['r'], ev['loc'])
+        for base, (h, loc) in sorted(ptr.items()):
+            if base not in ln:
+                continue
+            n += 1
+            expr, lloc = ln[base]
+            has_used = any(isinstance(x, dict) and x.get('k') == 'mem' and x.get('f') == 'used_size' for x in walk(expr))
+            has_hdr = any(isinstance(x, dict) and ap(x) == h for x in walk(expr))
+            ok = has_used and has_hdr
+            run.instance('R-PERSIST', '%s: raw packet = [token - hdr_size, used_size + hdr_size)' % f['name'])
+            run.oblige('R-PERSIST', ok, '%s:raw-packet-length' % f['name'])
+            if not ok:
+                run.violation('R-PERSIST', f['name'], lloc, 'raw-packet-length-without-header',
+                              'the persisted request starts hdr_size bytes in front of the token but its length is %s, which does not add that header size to used_size: the '
+                              'stored packet is cut short at the end and cannot be parsed (or loses payload) after a restart' % short(expr)[:50], [])
+    run.require(n >= (2 if run.cfg == 'base' else 0) or run.fixture_mode, 'R-PERSIST(raw packet): fewer than 2 places that build a raw packet for persistence found')
